@@ -39,3 +39,15 @@ Theorem C17_pem_plain_roundtrip :
   forall bl : list (bytes * bytes), Forall blk_ok bl -> read_pem (export bl) = (bl, true).
 Proof. exact read_pem_plain. Qed.
 Print Assumptions C17_pem_plain_roundtrip.
+
+(* input that is not a valid key is rejected: whatever the parser accepts is an EC key on a supported curve whose scalar is below
+   the group order (public point recomputed from it) or an RSA key record of non-negative numbers *)
+Theorem C17_accepts_only_supported_keys :
+  forall (base_mult : keyalg -> N -> bytes) (order : keyalg -> N) (bs : bytes) (k : privkey),
+    parse_pkcs8 base_mult order bs = Some k ->
+    match k with
+    | KEc c d pub => exists w, scalar_width c = Some w /\ (d < order c)%N /\ pub = base_mult c d
+    | KRsa _ _ _ _ _ _ _ _ => True
+    end.
+Proof. exact parse_accepts_only_supported_keys. Qed.
+Print Assumptions C17_accepts_only_supported_keys.
